@@ -182,6 +182,30 @@ def run_rules(P, rules):
     results = []
     for rule in rules:
         fn, kw = (rule, {}) if not isinstance(rule, tuple) else rule
+        rs = _run_one(P, fn, kw)
+        if any(o.undecided for rr in rs for o in rr.obs):
+            # second view: extracted helpers folded back into their callers (sa/inline.py).  Taken only when every obligation
+            # holds there; a violation found on the program as written is never replaced.
+            if not any((not o.ok and not o.undecided) for rr in rs for o in rr.obs):
+                for label, P2 in (P.inlined_views() if hasattr(P, "inlined_views") else ()):
+                    rs2 = _run_one(P2, fn, kw)
+                    # the second view only discharges: rules are calibrated on the text as written, so a complaint that appears
+                    # only after inlining may be an artefact of the rewriting and leaves the rule undecided
+                    if all(o.ok for rr in rs2 for o in rr.obs):
+                        for rr in rs2:
+                            rr.note(f"decided on the helper-inlined view [{label}] of the program (the rule was undecided on the text as written): "
+                                    + "; ".join(f"{m.rel}: {l}" for m in P2.modules.values() for l in m.transform_log)[:1500])
+                        rs = rs2
+                        break
+        results.extend(rs)
+    return results
+
+
+def _run_one(P, fn, kw):
+    import traceback
+    from .model import AnalysisError
+
+    if True:
         try:
             r = fn(P, **kw)
             rs = r if isinstance(r, list) else [r]
@@ -198,8 +222,7 @@ def run_rules(P, rules):
             if len(rr.obs) < rr.min_instances:
                 rr.undecided(_Anchor(P), None, f"rule {rr.rule} matched {len(rr.obs)} instance(s), fewer than the {rr.min_instances} confirmed by hand "
                              f"(it would pass vacuously)", construct=f"{rr.rule}: instance count")
-        results.extend(rs)
-    return results
+    return rs
 
 
 class _Anchor:
